@@ -35,6 +35,17 @@ def rang3_part(rep, sc, quick, rng):
         b = lists[(i * 7 + 3) % len(lists)]
         cases.append({"a": [[x + sh, y + sh] for x, y in a], "b": [[x + sh, y + sh] for x, y in b]})
         meta.append((a, b, sh))
+    # Subtract / Flatten on every pair of lists of <= 2 ranges over a 5-point universe, at the two ends of the code space
+    small = [(b, e) for b in range(5) for e in range(b, 5)]
+    small_lists = [[r] for r in small] + [[r, s] for r in small for s in small]
+    pairs = [(a, b) for a in small_lists for b in small_lists]
+    if quick:
+        rng.shuffle(pairs)
+        pairs = pairs[:4000]
+    for i, (a, b) in enumerate(pairs):
+        sh = (0, MAXRUNE - 4)[i % 2]
+        cases.append({"a": [[x + sh, y + sh] for x, y in a], "b": [[x + sh, y + sh] for x, y in b]})
+        meta.append((a, b, sh))
     tool = build_tool(sc, "rang3t")
     cf = os.path.join(sc, "r3cases.json")
     json.dump(cases, open(cf, "w"))
